@@ -848,9 +848,22 @@ class SigmaRegularExpression(SigmaType):
         """
         Replace all occurrences of string part matching regular expression with placeholder.
         """
+
+
+        def regex_callback(
+            p: Placeholder,
+        ) -> Iterator[str | SpecialChars | Placeholder | "SigmaString"]:
+            for replacement in callback(p):  # wildcards must be expressed as regular expressions
+                if replacement is SpecialChars.WILDCARD_MULTI:
+                    yield ".*"
+                elif replacement is SpecialChars.WILDCARD_SINGLE:
+                    yield "."
+                else:
+                    yield replacement
+
         return [
             SigmaRegularExpression(str(sigmastr), self.flags)
-            for sigmastr in self.regexp.replace_placeholders(callback)
+            for sigmastr in self.regexp.replace_placeholders(regex_callback)
         ]
 
 
